@@ -69,6 +69,9 @@ func (n *Net) Close() error {
 // Inject places a datagram directly in the receive queue (an unsolicited packet).
 func (n *Net) Inject(d []byte) { n.queue = append(n.queue, append([]byte(nil), d...)) }
 
+// Drain discards every waiting and delayed datagram.
+func (n *Net) Drain() { n.queue, n.later = nil, nil }
+
 // QueueLen is the number of datagrams waiting.
 func (n *Net) QueueLen() int { return len(n.queue) }
 
